@@ -21,10 +21,12 @@
   (`C09_like_empty_pattern_roundtrip`; was `C09_like_empty_pattern_counterexample`).
 
   `C09_encodings_authorize_alike_partial`: the decoded policy is satisfied exactly when the original is, in every
-  environment — proved on the fragment `JsonSemNormal` (record literals already key-sorted, patterns already in
-  `NewPattern` normal form, decimal / ip literals whose text parses back), where the identifications reduce to
-  "literal value = constructor call".  Outside it the statement holds only up to the error KIND of a record literal
-  with two failing entries (evaluation order = Go map order: C14) and needs a lemma on `NewPattern` normal forms.
+  environment — proved on the fragment `JsonSemNormal` (patterns already in `NewPattern` normal form, decimal / ip
+  literals whose text parses back), where the identifications reduce to "literal value = constructor call" and to the
+  listing order of record entries.  Record literals need NOT be key-sorted any more: since
+  `fix: evaluate the entries of a record literal in key order` a literal evaluates its entries in key order whatever
+  order they are listed in (`eval_recordLit_canon`; before, the error KIND of a literal with two failing entries
+  followed the Go map order: C14).  Outside the fragment the statement needs a lemma on `NewPattern` normal forms.
 
   LEAF HYPOTHESES DISCHARGED FROM C12 (last section, `…_inrange`): `JsonRenderable` mentions C13's `WF` for literal
   values (extension leaves whose text parses back) and `JsonSemNormal` asks that the text of every decimal / ip literal
@@ -102,6 +104,10 @@ def c09Example : Policy :=
 
 example : c09Example.JsonRenderable := by decide +kernel
 example : ({ c09Example with conditions := [(true, .binop .eq (.lit (.decimal 15000)) (.record [("a", .lit (.ip ⟨false, 1, 32⟩)), ("b", .var .context)]))] } : Policy).JsonSemNormal := by
+  decide +kernel
+
+-- a record literal whose entries are NOT listed in key order is inside the fragment
+example : ({ c09Example with conditions := [(true, .has (.record [("b", .var .context), ("a", .lit (.long 1))]) "a")] } : Policy).JsonSemNormal := by
   decide +kernel
 
 /-- the identifications are visible on the example: the annotations come back by key -/
